@@ -432,6 +432,23 @@ def case_union(ctx, rng):
             if len(members) == n:
                 break
         ctx.count("st.union.sibling_containers")
+        if rng.random() < 0.4 and shape != "set":
+            # the same one level further in: the partly converting attempt works on an *inner* container of the value
+            outer = rng.choice(["list", "dict", "tuple"])
+            if rng.random() < 0.5:
+                # an earlier member that converts the first item of the inner container (int -> float) before it fails on a
+                # later one, next to a member that takes the value as given but would not take the converted item
+                a, b = rng.choice([
+                    (G.list_t(G.FLOAT), G.list_t(G.union_t([G.INT, G.STR]))),
+                    (G.list_t(G.FLOAT), G.tuple_t([G.INT, G.BOOL])),
+                    (G.list_t(G.FLOAT), G.tuple_t([G.INT, G.STR])),
+                    (G.dict_t(G.FLOAT), G.dict_t(G.union_t([G.INT, G.STR]))),
+                    (G.tuple_t([G.FLOAT, G.BOOL]), G.tuple_t([G.INT, G.STR])),
+                ])
+                members = [a, b]
+                ctx.count("st.union.sibling_containers_nested.converting_first_item")
+            members = [{"list": G.list_t, "dict": G.dict_t, "tuple": lambda m: G.tuple_t([m, G.INT])}[outer](m) for m in members]
+            ctx.count("st.union.sibling_containers_nested")
     if rng.random() < 0.06:
         # a dataclass next to containers of class specs: the failing dataclass attempt must leave the specs (and their
         # dict_kwargs) as they were for the member after it, at parse time and when the result is validated
